@@ -735,20 +735,29 @@ theorem whole_float_is_not_printed_through_int64 :
     canonFloat "10000000000000000000.0".toList = .ok "10000000000000000000.0" ∧
     toString (wrap64 10000000000000000000) ++ ".0" ≠ "10000000000000000000.0" := by decide
 
-/-- `default-int-field` (finding, real code: pipeline JSON of |default().field('n', 9223372036854775807)): an
+/-- `default-int-field` (recorded finding, real code: pipeline JSON of |default().field('n', 9223372036854775807)): an
 int64 that goes through float64 – as every integer default does in DefaultNode.UnmarshalJSON – is another number
 beyond 2^53 -/
 theorem default_int_field_json_counterexample :
     ∃ v : Int, -int64Max ≤ v ∧ v ≤ int64Max ∧ roundF64 v ≠ v :=
   ⟨9223372036854775807, by decide, by decide, by decide⟩
 
-/-- `default-zero-field` (finding, real code: pipeline/tick of |default().field('x', 0.0)): the builder call
-`Dot("field", key, value)` of pipeline/tick/default.go drops a zero VALUE and keeps the key: the link is printed
-`.field('x')` with one argument, which is not the property call the pipeline came from -/
-theorem default_zero_field_tick_counterexample :
+/-- `default-zero-field` BEFORE the repair aaa5b64 (real code: pipeline/tick of |default().field('x', 0.0)): the
+builder call `Dot("field", key, value)` that pipeline/tick/default.go used drops a zero VALUE and keeps the key: the
+link was printed `.field('x')` with one argument, which is not the property call the pipeline came from (and does
+not build) -/
+theorem old_default_zero_field_tick_counterexample :
     (Tick.applyCall "Dot" "field" [.str "x", .flt "0.0"] [Tick.mkLink .pipe "default" []]).map
       (fun ls => ls.map (fun l => (l.name, l.args.map List.length))) =
     some [("default", some 0), ("field", some 1)] := by decide
+
+/-- … the repaired builder call `DotZeroValueOK("field", key, value)` keeps both arguments, for every zero value
+TICKscript can spell (0.0, -0.0, 0, FALSE, '') -/
+theorem default_zero_field_tick_repaired :
+    [Tick.Val.flt "0.0", .flt "-0.0", .int 0, .bool false, .str ""].all (fun z =>
+      (Tick.applyCall "DotZeroValueOK" "field" [.str "x", z] [Tick.mkLink .pipe "default" []]).map
+        (fun ls => ls.map (fun l => (l.name, l.args.map List.length))) ==
+      some [("default", some 0), ("field", some 2)]) = true := by decide
 
 /-- stated, not proved: `F64.fmt` finds a text for EVERY canonical binary64 value (classically: 17 significant
 digits always parse back; the search allows 20). Evaluated above on the boundary values and measured on every
